@@ -86,6 +86,7 @@ class WebSocketWriter:
             # This prevents small frames from interleaving with large frames that
             # compress in the executor, avoiding compressor state corruption.
             async with self._send_lock:
+                self._check_not_closing()
                 self._send_compressed_frame_sync(message, opcode, compress)
         else:
             # Large compressed frames need shield to prevent corruption
@@ -119,6 +120,11 @@ class WebSocketWriter:
             self._output_size = 0
             if self.protocol._paused:
                 await self.protocol._drain_helper()
+
+    def _check_not_closing(self) -> None:
+        """No data frame may follow the close frame, also not one that was waiting."""
+        if self._closing:
+            raise ClientConnectionResetError("Cannot write to closing transport")
 
     def _write_websocket_frame(self, message: bytes, opcode: int, rsv: int) -> None:
         """
@@ -233,15 +239,20 @@ class WebSocketWriter:
         advanced but data not sent, corrupting subsequent frames.
         """
         async with self._send_lock:
+            self._check_not_closing()
             # RSV are the reserved bits in the frame header. They are used to
             # indicate that the frame is using an extension.
             # https://datatracker.ietf.org/doc/html/rfc6455#section-5.2
             compressobj = self._get_compressor(compress)
+            compressed = await compressobj.compress(message)
+            # The close frame does not wait for the lock: it may have gone
+            # out while this message was being compressed.
+            self._check_not_closing()
             # (0x40) RSV1 is set for compressed frames
             # https://datatracker.ietf.org/doc/html/rfc7692#section-7.2.3.1
             self._write_websocket_frame(
                 (
-                    await compressobj.compress(message)
+                    compressed
                     + compressobj.flush(
                         ZLibBackend.Z_FULL_FLUSH
                         if self.notakeover
